@@ -29,6 +29,7 @@ NEGATIVE = [  # (Bug, property that must be violated)
     ("key_no_sel", "CacheTransparent"),
     ("key_no_ent", "CacheTransparent"),
     ("get_err_fails", "CacheTransparent"),
+    ("empty_is_hit", "CacheTransparent"),
     ("store_errors", "StoredOnlyIfAllowed"),
     ("store_non2xx", "StoredOnlyIfAllowed"),
     ("private_ignored", "StoredOnlyIfAllowed"),
@@ -147,7 +148,7 @@ def hist_to_case(cid, hist, tables, rng, dttl):
         a = e["a"]
         if a == "start":
             m = menu[e["i"] - 1]
-            cur = {"q": m["q"], "vars": "", "tick": e["j"] % 100, "ex": {t: dict(ROOT_HDR) for t in ROOTS}, "tx": [],
+            cur = {"q": m["q"], "vars": m.get("vars", ""), "tick": e["j"] % 100, "ex": {t: dict(ROOT_HDR) for t in ROOTS}, "tx": [],
                    "nocb": 1 if rng.random() < 0.15 else 0}
             cur["_steps"] = m["steps"]
             reqs.append(cur)
@@ -170,6 +171,38 @@ def hist_to_case(cid, hist, tables, rng, dttl):
     for r in reqs:
         del r["_steps"]
     return {"id": cid, "dttl": dttl, "reqs": reqs}, exp
+
+
+def conc_to_case(cid, b, tables):
+    """One behaviour of Gen_EntityCacheConc -> a history whose two requests run concurrently under the generated schedule."""
+    menu, headers = tables["menu"], tables["headers"]
+    reqs = []
+    for qi, hs in ((b["q1"], b["h1"]), (b["q2"], b["h2"])):
+        m = menu[qi - 1]
+        ex = {t: dict(ROOT_HDR) for t in ROOTS}
+        for i, st in enumerate(m["steps"]):
+            h = headers[hs[i] - 1]
+            ex[st["tg"]] = {"lines": [h["line"]] if h["dirs"] else None, "dirs": h["dirs"], "bad": 1 if h["bad"] else 0, "fault": "clean"}
+        reqs.append({"q": m["q"], "vars": m.get("vars", ""), "tick": 0, "ex": ex, "tx": [], "nocb": 0})
+    return {"id": cid, "dttl": 2, "conc": 1, "sched": b["sched"], "reqs": reqs}
+
+
+def conc_signature(b, tables):
+    menu = tables["menu"]
+    n1, n2 = len(menu[b["q1"] - 1]["steps"]), len(menu[b["q2"] - 1]["steps"])
+    return lib.sha([b["q1"], b["q2"], b["h1"][:n1], b["h2"][:n2], b["sched"]])
+
+
+def observed_hits_conc(rows):
+    """per concurrent history id -> {request number: [full hit? per GetMany]}"""
+    out, cur = {}, None
+    for x in rows:
+        if x["ev"] == "reset":
+            cur = out.setdefault(x["id"], {1: [], 2: []})
+        elif x["ev"] == "get":
+            full = x["res"] == "ok" and len(x["found"]) == len(x["keys"]) and len(x["keys"]) > 0 and not any(f.get("e") for f in x["found"])
+            cur.setdefault(x.get("r", 0), []).append(1 if full else 0)
+    return out
 
 
 HDR_QUERY = "{me{reviews{product{name}}}}"
@@ -290,7 +323,7 @@ def observed_hits(rows):
         elif x["ev"] == "req":
             cur.append([])
         elif x["ev"] == "get":
-            full = x["res"] == "ok" and len(x["found"]) == len(x["keys"]) and len(x["keys"]) > 0
+            full = x["res"] == "ok" and len(x["found"]) == len(x["keys"]) and len(x["keys"]) > 0 and not any(f.get("e") for f in x["found"])
             cur[-1].append(1 if full else 0)
     return out
 
@@ -347,7 +380,7 @@ def model_check(ctx, quick):
     else:
         ctx.tlc_must_pass(SPEC_DIRS, "MC_EntityCache", "MC_EntityCache_t.cfg", timeout=3000, workers=8, tag="mc-entity-cache-3req-small-menu")
         ctx.tlc_must_pass(SPEC_DIRS, "MC_EntityCache", "MC_EntityCache_t2.cfg", timeout=3000, workers=8, tag="mc-entity-cache-2req-full-menu")
-    negs = [NEGATIVE[0], NEGATIVE[1], NEGATIVE[6]] if quick else NEGATIVE
+    negs = [n for n in NEGATIVE if n[0] in ("partial_as_full", "key_no_sel", "private_ignored")] if quick else NEGATIVE
     for bug, prop in negs:
         r = ctx.tlc(SPEC_DIRS, "MC_EntityCache", "MC_EntityCache_neg.cfg", timeout=600, workers=4, count=False,
                     env={"C16_BUG": bug}, tag="mc-negative-" + bug)
@@ -411,6 +444,28 @@ def run(ctx):
         c, e = hist_to_case("s-%06d" % i, h, tables, rng, 2)
         cases.append(c)
         expected[c["id"]] = e
+    # ---- 2c. concurrent pairs of requests sharing the cache (model-checked while generating) --------------------------
+    gc = ctx.tlc_must_pass(SPEC_DIRS, "Gen_EntityCacheConc", "Gen_EntityCacheConc.cfg", timeout=1500, workers=4, deadlock=False,
+                           tag="mc+gen-concurrent-pairs")
+    for cfg, inv in (("MC_EntityCacheConc_negP.cfg", "ServedTruth"), ("MC_EntityCacheConc_negK.cfg", None)):
+        r = ctx.tlc(SPEC_DIRS, "Gen_EntityCacheConc", cfg, timeout=600, workers=4, count=False, tag="mc-negative-concurrent")
+        if r.violated is None or (inv and r.violated != inv):
+            raise lib.Inconclusive("sanity: concurrent model with a seeded bug (%s) should be rejected, got %r" % (cfg, r.error))
+    conc = {}
+    for p in gc.printed:
+        if p.get("conc") == 1:
+            conc[conc_signature(p, tables)] = p
+    conc_keys = sorted(conc)
+    n_conc_total = len(conc_keys)
+    if quick:
+        rng.shuffle(conc_keys)
+        conc_keys = conc_keys[:400]
+    expected_conc = {}
+    for i, k in enumerate(conc_keys):
+        c = conc_to_case("c-%06d" % i, conc[k], tables)
+        cases.append(c)
+        expected_conc[c["id"]] = {1: conc[k]["hits1"], 2: conc[k]["hits2"]}
+    ctx.log("concurrent histories: %d (of %d distinct behaviours)" % (len(conc_keys), n_conc_total))
     # ---- 2b. header strings -----------------------------------------------------------------------------------------
     hdrs = {}
     gh = ctx.tlc_must_pass(SPEC_DIRS, "Gen_CacheControl", "Gen_CacheControl_1.cfg" if quick else "Gen_CacheControl_2.cfg",
@@ -463,9 +518,20 @@ def run(ctx):
         import concurrent.futures
         with concurrent.futures.ThreadPoolExecutor(max_workers=3) as ex:
             outs = list(ex.map(one, batches))
+    conc_agree = conc_total = conc_sched_realised = 0
     for rows, results in outs:
         if first_rows is None:
             first_rows = rows
+        oc = observed_hits_conc(rows)
+        for r in results:
+            if r["id"] in expected_conc:
+                conc_total += 1
+                want = expected_conc[r["id"]]
+                got = oc.get(r["id"], {})
+                if want[1] == got.get(1, []) and want[2] == got.get(2, []):
+                    conc_agree += 1
+                if r.get("took") == case_by_id[r["id"]]["sched"]:
+                    conc_sched_realised += 1
         obs = observed_hits(rows)
         for cid, per_req in obs.items():
             if cid not in expected:
@@ -479,6 +545,9 @@ def run(ctx):
     demo = binding_demo(ctx, first_rows) if first_rows else None
     if demo is not None and not (demo["ttl_corrupted_rejected_by"] == "TTLWithinLifetime" and demo["set_dropped_rejected_by"]):
         raise lib.Inconclusive("binding demonstration failed: %r" % demo)
+    if conc_total and conc_sched_realised < conc_total:
+        ctx.notes.append("%d of %d concurrent schedules were not realised step by step (validated as executed)" % (
+            conc_total - conc_sched_realised, conc_total))
     n_hist = len(bfs) + len(sim)
     nontrivial = 0
     for cid, e in expected.items():
@@ -500,6 +569,9 @@ def run(ctx):
         "requests_with_reported_cache_errors": stats["requests_with_cache_errors"],
         "items_stored": stats["items_stored"], "full_hits": stats["full_hits"],
         "hit_prediction_agreement": "%d/%d requests" % (agree, total_pred),
+        "concurrent_histories": conc_total, "concurrent_behaviours_total": n_conc_total,
+        "concurrent_schedules_realised_exactly": conc_sched_realised,
+        "concurrent_hit_prediction_agreement": "%d/%d histories" % (conc_agree, conc_total),
         "hit_prediction_mismatches_not_involving_status_300_or_null_entity": unexplained[:10],
         "rules_on_traces": ["CacheTransparent", "StoredFromCleanSuccess", "StoredOnlyIfAllowed", "TTLWithinLifetime", "OneItemPerObjectEntity",
                             "StoreSound", "StoredWithoutLoad", "StoredWithoutKeys", "PartialNeverServed", "ServedOnlyStoredLive"],
